@@ -1187,7 +1187,8 @@ static void mark_selectors_in_property_with_open_paren(Chunk *open_paren)
 
    Chunk *tmp = open_paren;
 
-   while (tmp->IsNot(CT_PAREN_CLOSE))
+   while (  tmp->IsNotNullChunk()
+         && tmp->IsNot(CT_PAREN_CLOSE))
    {
       if (  tmp->Is(CT_WORD)
          && (  tmp->IsString("setter")
@@ -1221,7 +1222,8 @@ static void mark_attributes_in_property_with_open_paren(Chunk *open_paren)
 
    Chunk *tmp = open_paren;
 
-   while (tmp->IsNot(CT_PAREN_CLOSE))
+   while (  tmp->IsNotNullChunk()
+         && tmp->IsNot(CT_PAREN_CLOSE))
    {
       Chunk *next = tmp->GetNext();
 
